@@ -12,8 +12,8 @@ CASES_ARE_COUNTED = True
 TIERS = {'quick': {'runs': 9000, 'budget_s': 45}, 'thorough': {'runs': 600000, 'budget_s': 900}}
 RULE = ('one run = one seeded world (layered program over fact/native predicates with cut, ;, ->, \\+, once, call/N, findall, =, \\=, '
         'member/append; query with fresh/shared/pre-bound variables). Per world the fault space is enumerated completely: every '
-        'abandonment point k in 0..#answers x {close, drop, throw} and every native invocation j x {raise before first yield, raise on '
-        'resumption}. A case = one fault placement; non-trivial = at least one registry variable was bound when the fault struck; '
+        'abandonment point k in 0..#answers x {close, drop, throw}, every native invocation j x {raise before first yield, raise on '
+        'resumption}, and abandonment through evaluate_bounded (projection raising at answer k <= 4, own recursion limit of the caller 10 or 30 frames above it, query held or not). A case = one fault placement; non-trivial = at least one registry variable was bound when the fault struck; '
         'distinct = hash of (rule text, fault kind, stack of live nested queries at the fault)')
 ASSUMPTIONS = [
     'CPython 3.12 refcount finalisation (the statement says "closed or dropped"); cyclic GC is disabled during runs',
@@ -26,7 +26,7 @@ COMPONENTS = {'real': ['yldprolog.compiler pipeline', 'yldprolog.engine (YP subc
                        'generated clause code', 'CPython generators / refcount finalisation'],
               'stub': ['consumer (abandons at every k by close/drop/throw)', 'native predicates (harness generators with raise switches)'],
               'oracle': ['self-referential: registry snapshot equality, nested-query restore on the exhaustion path, re-run equality with the fault-free run']}
-REQUIRED_PROBES = ('fault_close', 'fault_drop', 'fault_throw', 'fault_user_raise_fired', 'abandoned_with_bound_vars',
+REQUIRED_PROBES = ('fault_bounded_projection_raised', 'fault_close', 'fault_drop', 'fault_throw', 'fault_user_raise_fired', 'abandoned_with_bound_vars',
                    'abandoned_with_2plus_live_queries', 'worlds_with_prebinding')
 
 ANSWER_CAP = 12
@@ -166,6 +166,60 @@ def run_query(sim, yp, name, qargs, ctl, k, mode, fault, cap=ANSWER_CAP):
     return ans, end, info
 
 
+def _frame_depth():
+    f = sys._getframe(1)
+    n = 0
+    while f is not None:
+        n += 1
+        f = f.f_back
+    return n
+
+
+def run_bounded(sim, yp, name, qargs, ctl, k, held, ambient):
+    """abandonment through evaluate_bounded: the projection raises at the k-th answer while the caller's own
+    recursion limit (`ambient` frames above the caller) is lower than the limit requested for the search.
+    returns (answers projected before the raise, end, info)"""
+    ctl['fault'] = None
+    ctl['calls'] = 0
+    ctl['fired'] = 0
+    exc = core.Boom('projection')
+    ans = []
+
+    def proj(x):
+        if len(ans) == k:
+            raise exc
+        ans.append(observe_answer(sim, qargs))
+        return len(ans)
+    out = {}
+    old = sys.getrecursionlimit()
+    base = _frame_depth()
+    q = yp.query(name, qargs)
+    holder = [q] if held else []
+    try:
+        sys.setrecursionlimit(base + ambient)
+        try:
+            if held:
+                del q
+                yp.evaluate_bounded(holder[0], proj, recursion_limit=base + 600)
+            else:
+                q2, q = q, None
+                yp.evaluate_bounded(q2, proj, recursion_limit=base + 600)
+                del q2
+            out['end'] = 'returned'
+        except core.Boom as e:
+            out['end'] = 'boom' if e is exc else 'boom-other-object'
+        except RecursionError:
+            out['end'] = 'exc:RecursionError'
+        except Exception as e:
+            out['end'] = 'exc:' + type(e).__name__
+        out['limit_after'] = sys.getrecursionlimit() - (base + ambient)
+    finally:
+        sys.setrecursionlimit(old)
+    exc = None
+    info = {'calls': ctl['calls'], 'fired': 0, 'limit_delta': out.get('limit_after'), 'held': bool(holder)}
+    return ans, out['end'], info, holder
+
+
 def execute(plan):
     log = core.Log(keep=plan.get('_keep', False))
     world = plan['world']
@@ -242,6 +296,9 @@ def execute(plan):
         if plan['faults'] == 'all':
             faults = [['abandon', k, mode] for k in range(n + 1) for mode in ('close', 'drop', 'throw')]
             faults += [['raise', j, ph, core.INJECTED_KINDS[(j + i) % 4]] for j in range(1, min(ncalls, MAX_RAISE_POINTS) + 1) for i, ph in enumerate(('pre', 'resume'))]
+            # abandonment through evaluate_bounded (the projection raises at answer k) with the caller's own limit
+            # 10 / 30 frames above its depth, i.e. far below the limit requested for the search
+            faults += [['bounded', k, (10, 30)[(k + i) % 2], bool((k + i) % 2)] for k in range(min(n, 4) + 1) for i in range(2)]
         else:
             faults = plan['faults']
         for fault in faults:
@@ -255,6 +312,13 @@ def execute(plan):
                     log.key((shape, mode, info.get('live')))
                 if len(info.get('live', ())) >= 3:
                     log.count('abandoned_with_2plus_live_queries')
+            elif fault[0] == 'bounded':
+                ans, end, info, holder = run_bounded(sim, yp, name, qargs, ctl, min(fault[1], n), fault[3], fault[2])
+                log.count('fault_bounded')
+                if end == 'boom':
+                    log.count('fault_bounded_projection_raised')
+                    log.key((shape, 'bounded', fault[2], fault[3], len(ans)))
+                # the caller has handled and released the exception; it may still hold the query
             else:
                 ans, end, info = run_query(sim, yp, name, qargs, ctl, None, 'exhaust', (fault[1], fault[2], fault[3] if len(fault) > 3 else 'Exception'))
                 log.count('fault_user_raise')
@@ -265,6 +329,7 @@ def execute(plan):
             log.ev('F', fault[0], fault[1], fault[2], end, len(ans), core.short_hash(ans))
             if check_after(fault, ans, end, info, r1):
                 return log.result()
+            holder = None
             if fault[0] == 'raise' and not info['fired'] and (ans, end) != (r1[0], r1[1]):
                 log.violation('rerun-differs', {'fault': fault, 'end': end, 'expected_end': r1[1]})
                 return log.result()
@@ -292,7 +357,7 @@ def execute(plan):
 
 def narrow(plan, viol):
     f = viol['detail'].get('fault')
-    if f and f[0] in ('abandon', 'raise'):
+    if f and f[0] in ('abandon', 'raise', 'bounded'):
         c = dict(plan)
         c['faults'] = [f]
         return c
